@@ -22,9 +22,13 @@ type impFn struct {
 	retSelf    bool            // the single result is the receiver pointer itself
 	bigFresh   map[string]bool // big.Int variables currently bound to a fresh object (pool.BigInt.Get): may be overwritten
 	bigUninit  map[string]bool // … whose contents have not been set yet: may not be read
+	bigScratch map[string]bool // … declared by `x := pool.BigInt.Get()` (checkBigScratch: never re-assigned or aliased): fresh in its whole scope
+	bigDead    map[string]bool // … that have been given back to the pool (pool.BigInt.Put): may not be used any more
+	bigLocal   map[string]bool // `var x big.Int` locals (values owned by the function)
 	evRecv     bool            // the "receiver" is the event list of a callback parameter
 	fuels      []string        // explicit fuel parameters (loops without a recognised counting pattern)
 	usesNumCPU bool
+	inLoopNow  bool   // the statement being translated is inside a loop body
 	recv       string // receiver variable ("" = none); passed and returned by value
 	results    []*ity
 	scopes     []map[string]*ity
@@ -59,14 +63,17 @@ type ictx struct {
 var leanReserved = map[string]bool{"end": true, "from": true, "at": true, "show": true, "then": true, "fun": true, "open": true, "by": true, "do": true, "in": true,
 	"have": true, "let": true, "match": true, "with": true, "if": true, "else": true, "def": true, "theorem": true, "where": true, "namespace": true, "section": true,
 	"instance": true, "structure": true, "class": true, "Type": true, "Prop": true, "Sort": true, "this": true, "W": true, "H": true, "rest_": true, "ret_": true,
-	"some": true, "none": true, "len": true, "copy": true, "index": true, "deref": true, "makeBytes": true, "bytesOfString": true, "numCPU": true, "fuel_": true, "shl64": true, "uintOfInt": true, "min": true, "max": true, "hSize": true, "hBlockSize": true, "copyAt": true, "setAt": true, "byteOfInt": true, "mul": true, "one": true, "inv": true, "F": true}
+	"some": true, "none": true, "len": true, "copy": true, "index": true, "deref": true, "makeBytes": true, "bytesOfString": true, "numCPU": true, "fuel_": true, "shl64": true, "uintOfInt": true, "min": true, "max": true, "hSize": true, "hBlockSize": true, "copyAt": true, "setAt": true, "byteOfInt": true, "mul": true, "one": true, "inv": true, "F": true,
+	"Bytes": true, "zeroF": true, "setBigIntF": true, "modulus": true, "default": true, "makeSlice": true, "sliceOf": true, "bigCmp": true, "bigMod": true, "bigSetBytes": true}
 
 func lname(n string) string {
-	if leanReserved[n] {
+	if leanReserved[n] || impExtraReserved[n] {
 		return n + "'"
 	}
 	return n
 }
+
+func (f *impFn) isFresh(x string) bool { return f.bigFresh[x] || f.bigScratch[x] }
 
 // ---------------------------------------------------------------------------------------------- scopes
 
@@ -88,6 +95,9 @@ func (f *impFn) declare(at ast.Node, n string, t *ity) {
 	}
 	if f.lookup(n) != nil {
 		f.p.die(at, "declaration of %s shadows / repeats a live variable (outside the subset)", n)
+	}
+	if f.p.tg.digest && digestReserved[n] {
+		f.p.die(at, "the variable %s has the name of a parameter of the generated defs", n)
 	}
 	f.scopes[len(f.scopes)-1][n] = t
 	for _, d := range f.declOrd {
@@ -161,6 +171,11 @@ func nilTests(e ast.Expr, op token.Token, cmp token.Token, out *[]string) {
 
 func (f *impFn) expr(e ast.Expr, want *ity, c *ictx) (string, *ity) {
 	p := f.p
+	if p.tg.digest {
+		if s, t, ok := f.digestExpr(e, want, c); ok {
+			return s, t
+		}
+	}
 	switch v := e.(type) {
 	case *ast.ParenExpr:
 		return f.expr(v.X, want, c)
@@ -171,6 +186,9 @@ func (f *impFn) expr(e ast.Expr, want *ity, c *ictx) (string, *ity) {
 			}
 			if want != nil && want.k == "byte" {
 				return "(" + v.Value + " : UInt8)", tyByte
+			}
+			if want != nil && want.k == "int64" { // untyped constant in an int64 context
+				return v.Value, want
 			}
 			return v.Value, tyInt
 		}
@@ -194,13 +212,23 @@ func (f *impFn) expr(e ast.Expr, want *ity, c *ictx) (string, *ity) {
 			if f.bigUninit[v.Name] {
 				p.die(e, "%s is read before the fresh big.Int it points to has been set", v.Name)
 			}
+			if f.bigDead[v.Name] {
+				p.die(e, "%s is used after pool.BigInt.Put(%s)", v.Name, v.Name)
+			}
 			return lname(v.Name), t
 		}
 		if _, ok := p.errVars[v.Name]; ok {
 			return v.Name, tyErr
 		}
+		if _, ok := p.consts[v.Name]; ok { // package-level integer constant (mode h2f)
+			p.useConst(v.Name)
+			return lname(v.Name), tyInt
+		}
 		p.die(e, "unknown identifier %s", v.Name)
 	case *ast.SelectorExpr:
+		if p.tg.ext && exprText(v) == "fr.Limbs" && f.lookup("fr") == nil {
+			return "limbs", tyInt // the number of 64-bit words of an fr.Element (parameter)
+		}
 		xs, xt := f.expr(v.X, nil, c)
 		if xt.k == "ptr" {
 			if !f.nonNil[exprText(v.X)] {
@@ -219,6 +247,22 @@ func (f *impFn) expr(e ast.Expr, want *ity, c *ictx) (string, *ity) {
 		p.die(e, "no field %s", v.Sel.Name)
 	case *ast.IndexExpr:
 		xs, xt := f.expr(v.X, nil, c)
+		if xt.k == "array" && xt.elem.k == "grp" {
+			_, get, _ := f.grpLval(v, c)
+			return get, xt.elem
+		}
+		if xt.k == "array" { // array of fr.Element words
+			return "arrGet " + parenImp(xs) + " " + parenImp(f.natIndex(v.Index, c)) + " " + p.zero(xt.elem), xt.elem
+		}
+		if xt.k == "frel" { // word i of an fr.Element (out of range panics in Go: not modelled, reads 0)
+			return "arrGet " + parenImp(xs) + " " + parenImp(f.natIndex(v.Index, c)) + " 0", tyU64
+		}
+		if xt.k == "bigpair" { // the [2]big.Int returned by ecc.SplitScalar
+			if n := litInt(v.Index); n != nil && (n.Int64() == 0 || n.Int64() == 1) {
+				return parenImp(xs) + map[int64]string{0: ".1", 1: ".2"}[n.Int64()], &ity{k: "bigint"}
+			}
+			p.die(e, "index of the split pair (only the literals 0, 1)")
+		}
 		if xt.k != "slice" {
 			p.die(e, "index expression on %v (map reads only as `v, ok := m[k]`)", xt)
 		}
@@ -363,7 +407,7 @@ func (f *impFn) binary(v *ast.BinaryExpr, want *ity, c *ictx) (string, *ity) {
 			p.die(v, "comparison of %v with nil (slices / maps: not in the by-value subset)", xt)
 		}
 		xs, xt, ys, yt := f.operands(v, nil, c)
-		if !xt.eq(yt) || !(xt.k == "int" || xt.k == "uint64" || xt.k == "bool" || xt.k == "string" || xt.k == "error" || xt.k == "byte") {
+		if !xt.eq(yt) || !(xt.k == "int" || xt.k == "uint64" || xt.k == "bool" || xt.k == "string" || xt.k == "error" || xt.k == "byte" || xt.k == "int64") {
 			p.die(v, "comparison of %v and %v", xt, yt)
 		}
 		op := "=="
@@ -381,13 +425,33 @@ func (f *impFn) binary(v *ast.BinaryExpr, want *ity, c *ictx) (string, *ity) {
 	case token.XOR:
 		xs, xt := f.expr(v.X, tyByte, c)
 		ys, yt := f.expr(v.Y, tyByte, c)
+		if xt.k == "int64" && yt.k == "int64" { // bitwise xor of the two's complement representations
+			return "xorS64 " + parenImp(xs) + " " + parenImp(ys), xt
+		}
 		if xt.k != "byte" || yt.k != "byte" {
 			p.die(v, "^ on %v, %v (only bytes)", xt, yt)
 		}
 		return parenImp(xs) + " ^^^ " + parenImp(ys), tyByte
+	case token.AND, token.OR:
+		xs, xt, ys, yt := f.operands(v, want, c)
+		if !xt.eq(yt) || !(xt.k == "byte" || xt.k == "uint64") {
+			p.die(v, "%s on %v, %v (only bytes / uint64)", v.Op, xt, yt)
+		}
+		return parenImp(xs) + map[token.Token]string{token.AND: " &&& ", token.OR: " ||| "}[v.Op] + parenImp(ys), xt
 	case token.SHR:
 		xs, xt := f.expr(v.X, tyInt, c)
+		if xt.k == "byte" || xt.k == "uint64" {
+			// x >> n with a signed count n (a negative count panics in Go: not modelled); the value is computed on the naturals
+			ns, nt := f.expr(v.Y, tyInt, c)
+			if nt.k != "int" {
+				p.die(v, ">> count of type %v", nt)
+			}
+			return map[string]string{"byte": "shrByte ", "uint64": "shr64 "}[xt.k] + parenImp(xs) + " " + parenImp(ns), xt
+		}
 		n := litInt(v.Y)
+		if xt.k == "int64" && n != nil { // arithmetic shift of an int64: floor division by 2^n, no wrap-around possible
+			return "Int.shiftRight " + parenImp(xs) + " " + n.String(), xt
+		}
 		if xt.k != "int" || n == nil {
 			p.die(v, ">> form (only int >> literal: arithmetic shift = floor division by 2^n)")
 		}
@@ -415,6 +479,12 @@ func (f *impFn) binary(v *ast.BinaryExpr, want *ity, c *ictx) (string, *ity) {
 			case token.REM:
 				return parenImp(xs) + " % " + parenImp(ys), tyU64
 			}
+		}
+		if xt.k == "int64" && yt.k == "int64" && (v.Op == token.ADD || v.Op == token.SUB) { // int64: wraps around
+			return "wrapS64 (" + parenImp(xs) + " " + v.Op.String() + " " + parenImp(ys) + ")", xt
+		}
+		if xt.k == "byte" && yt.k == "byte" && (v.Op == token.SUB || v.Op == token.ADD) { // UInt8 arithmetic wraps, as in Go
+			return parenImp(xs) + " " + v.Op.String() + " " + parenImp(ys), tyByte
 		}
 		if xt.k != "int" || yt.k != "int" {
 			p.die(v, "%s on %v, %v", v.Op, xt, yt)
@@ -501,6 +571,31 @@ func (f *impFn) call(v *ast.CallExpr, want *ity, c *ictx) (string, *ity) {
 		}
 		p.die(v, "conversion %v(%v)", t, xt)
 	}
+	if se, ok := v.Fun.(*ast.SelectorExpr); ok && p.tg.ext {
+		if ix, ok := se.X.(*ast.IndexExpr); ok {
+			if id, ok := ix.X.(*ast.Ident); ok && f.lookup(id.Name) != nil && f.lookup(id.Name).k == "bigpair" && se.Sel.Name == "Sign" && len(v.Args) == 0 {
+				xs, _ := f.expr(ix, nil, c)
+				return "bigSign " + parenImp(xs), tyInt
+			}
+		}
+		if id, ok := se.X.(*ast.Ident); ok {
+			if t := f.lookup(id.Name); t != nil && t.k == "frel" && se.Sel.Name == "BitLen" && len(v.Args) == 0 {
+				return "elBitLen " + lname(id.Name), tyInt // (*fr.Element).BitLen on the raw words (parameter)
+			}
+		}
+		if exprText(v.Fun) == "ecc.SplitScalar" && len(v.Args) == 2 && f.lookup("ecc") == nil {
+			// the lattice basis (second argument, a package-level variable) is part of the parameter `split`
+			u, ok := v.Args[1].(*ast.UnaryExpr)
+			if !ok || u.Op != token.AND || exprText(u.X) != "glvBasis" || f.lookup("glvBasis") != nil {
+				p.die(v, "ecc.SplitScalar form (only SplitScalar(s, &glvBasis))")
+			}
+			as, at := f.expr(v.Args[0], nil, c)
+			if at.k != "bigint" {
+				p.die(v, "SplitScalar argument")
+			}
+			return "split " + parenImp(as), &ity{k: "bigpair"}
+		}
+	}
 	if se, ok := v.Fun.(*ast.SelectorExpr); ok {
 		if id, ok := se.X.(*ast.Ident); ok {
 			if t := f.lookup(id.Name); t != nil && t.k == "bigint" {
@@ -514,6 +609,12 @@ func (f *impFn) call(v *ast.CallExpr, want *ity, c *ictx) (string, *ity) {
 					return "bigSign " + xs, tyInt
 				case se.Sel.Name == "BitLen" && len(v.Args) == 0:
 					return "bigBitLen " + xs, tyInt
+				case se.Sel.Name == "Cmp" && len(v.Args) == 1 && p.tg.mode == "h2f":
+					return "bigCmp " + xs + " " + parenImp(f.h2fBigArg(v.Args[0], c)), tyInt
+				case se.Sel.Name == "Bytes" && len(v.Args) == 0 && p.tg.grp != "":
+					return "bigBytes " + xs, tyBytes // big-endian bytes of |x|, no leading zero ([] for 0)
+				case se.Sel.Name == "Bits" && len(v.Args) == 0 && p.tg.grp != "":
+					return "bigWords " + xs, &ity{k: "slice", elem: tyU64} // little-endian 64-bit words of |x|, normalised (64-bit platform)
 				case se.Sel.Name == "Bit" && len(v.Args) == 1:
 					is, it := f.expr(v.Args[0], tyInt, c)
 					if it.k != "int" {
@@ -592,6 +693,14 @@ func (f *impFn) call(v *ast.CallExpr, want *ity, c *ictx) (string, *ity) {
 			if bl, ok := v.Args[0].(*ast.BasicLit); ok && bl.Kind == token.STRING {
 				return "Err.sentinel " + bl.Value, tyErr
 			}
+			if be, ok := v.Args[0].(*ast.BinaryExpr); ok && be.Op == token.ADD && p.tg.mode == "h2f" {
+				// errors.New("literal" + s): a sentinel named by its message
+				if bl, ok := be.X.(*ast.BasicLit); ok && bl.Kind == token.STRING {
+					if ss, st := f.expr(be.Y, tyString, c); st.k == "string" {
+						return "Err.sentinel (" + bl.Value + " ++ strOf " + parenImp(ss) + ")", tyErr
+					}
+				}
+			}
 		}
 		p.die(v, "errors.New form")
 	case "uint8", "byte":
@@ -609,7 +718,7 @@ func (f *impFn) call(v *ast.CallExpr, want *ity, c *ictx) (string, *ity) {
 		if len(v.Args) == 1 && f.lookup(exprText(v.Fun)) == nil {
 			xs, xt := f.expr(v.Args[0], nil, c)
 			switch xt.k {
-			case "int":
+			case "int", "int64":
 				return "uintOfInt " + parenImp(xs), tyU64
 			case "uint64":
 				return xs, tyU64
@@ -647,6 +756,14 @@ func (f *impFn) call(v *ast.CallExpr, want *ity, c *ictx) (string, *ity) {
 				p.die(v, "make length")
 			}
 			return "makeBytes " + parenImp(ns), t
+		}
+		if t.k == "slice" && t.elem.k == "elem" && len(v.Args) == 2 && p.tg.mode == "h2f" {
+			// make([]Element, n): n zero values of the element type (`default`; a negative n panics in Go: not modelled)
+			ns, nt := f.expr(v.Args[1], tyInt, c)
+			if nt.k != "int" {
+				p.die(v, "make length")
+			}
+			return "(makeSlice " + parenImp(ns) + " : List F)", t
 		}
 		p.die(v, "make(%v, …)", t)
 	case "append":
